@@ -1,4 +1,5 @@
 import Tickit.Gen.ModeLayout
+import Tickit.Gen.XTermFacts
 /-
   C12 — model of the terminal-mode life cycle.
 
@@ -229,7 +230,7 @@ def onModereport (cfg : Cfg) (d : XDrv) (mode value : Int) : XDrv :=
                { d.mode with cursorvis := wrapU ModeLayout.w_mode_cursorvis 1 } else d.mode
     { d with mode := m, init := { d.init with cursorvis := wrapU ModeLayout.w_initialised_cursorvis 1 } }
   else if mode = 69 then
-    let c := if value = 1 ∨ value = 2 then { d.cap with slrm := wrapU ModeLayout.w_cap_slrm 1 } else d.cap
+    let c := if (Gen.XTermFacts.slrmAccept.map Int.ofNat).contains value then { d.cap with slrm := wrapU ModeLayout.w_cap_slrm 1 } else d.cap
     { d with cap := c, init := { d.init with slrm := wrapU ModeLayout.w_initialised_slrm 1 } }
   else d
 
